@@ -4,8 +4,8 @@ import (
 	"errors"
 	"fmt"
 	"net"
-	"path/filepath"
 	"os"
+	"path/filepath"
 	"runtime"
 	"sync"
 	"time"
